@@ -340,10 +340,13 @@ func TestVerifC16_qndleq_degenerate(t *testing.T) {
 	r.Set("false_statements", len(stmts))
 	r.Set("Z_range", zmax)
 	r.Set("SecParam_alphabet", secs)
-	type acc struct {
-		z   string
-		c   int64
-		sec uint
+	// the example named in the property text first, so that it is the one kept for the key: (Z=7, C=0, SecParam=0)
+	if s0 := stmts[0]; r.Want(s0.id + "|Z=7,C=0,SecParam=0") {
+		if ok, _, _ := c16Verify(qndleq.Proof{Z: big.NewInt(7), C: big.NewInt(0), SecParam: 0}, s0.st); ok {
+			r.Violation("C16|qndleq.Proof.Verify|accepts-false-statement|SecParam<128", s0.id+"|Z=7,C=0,SecParam=0",
+				s0.id+": the proof (Z=7, C=0, SecParam=0) verifies for the false statement (g, g^x, h, h^(x+1)); the verifier takes the challenge length from Proof.SecParam, so an empty challenge equals C=0 for every statement",
+				map[string]interface{}{"statement": s0.st.hex(), "Z": "7", "C": 0, "SecParam": 0, "false_because": s0.id})
+		}
 	}
 	verifmc.ParallelFor(len(stmts), func(si int) {
 		s := stmts[si]
